@@ -482,6 +482,9 @@ func (tr *Trans) loopEnv(li *loopInfo, st *State, phis map[*ssa.Phi]Val) *Env {
 	// loop variables: bind source names of phis (and of allocs referenced by name)
 	for phi, v := range phis {
 		if n := phi.Comment; n != "" {
+			if pv, isParam := env.vars[n]; isParam {
+				env.vars["old$"+n] = pv // old(n) of a reassigned parameter is its entry value
+			}
 			env.vars[n] = v
 		}
 	}
